@@ -53,5 +53,8 @@ Concat(ss) == FoldLeft(LAMBDA acc, s : acc \o s, <<>>, ss)
 RECURSIVE NatDigits(_)
 NatDigits(n) == IF n < 10 THEN <<48 + n>> ELSE NatDigits(n \div 10) \o <<48 + (n % 10)>>
 
+\* s contains t as a contiguous subsequence
+ContainsSeq(s, t) == \E i \in 1..(Len(s) - Len(t) + 1) : SubSeq(s, i, i + Len(t) - 1) = t
+
 NoDup(seq) == \A i, j \in 1..Len(seq) : i # j => seq[i] # seq[j]
 =============================================================================
